@@ -526,6 +526,7 @@ def run(ctx):
                            'invocation that ends in internalError are optional')
     _witness_ctu_mismatch(ctx)
     _witness_summary(ctx, 'summary-nonascii-process-nobuilddir', ['xé'], ['-j2', '--executor=process'], False)
+    _witness_summary(ctx, 'summary-dollar-symbol-nobuilddir', ['see $symbol here'], ['-j1'], False)
     n_mon = ctx.n(40, 3000)
     n_asan = ctx.n(6, 400)
     items = [('mon', i) for i in range(n_mon)] + [('asan', i) for i in range(n_asan)]
